@@ -17,7 +17,15 @@ pub mod winmon_time;
 
 pub fn dispatch(args: &Args, report: &mut Report) {
     match args.prop.as_str() {
-        "C01" | "C05" | "C09" => jobgen::run(args, report),
+        "C01" | "C09" => jobgen::run(args, report),
+        "C05" => {
+            if args.sub.is_none() || args.sub.as_deref() == Some("jobgen") {
+                jobgen::run(args, report);
+            }
+            if args.sub.is_none() || args.sub.as_deref() == Some("timestamped") {
+                scripts::run_c06(args, report);
+            }
+        }
         "C08" => {
             if args.sub.is_none() || args.sub.as_deref() == Some("jobgen") {
                 jobgen::run(args, report);
